@@ -522,6 +522,19 @@ def r01_11(ctx: Ctx) -> None:
     splits = [n for n in walk(f.node) if isinstance(n, ast.Assign) and isinstance(n.targets[0], ast.Tuple) and len(n.targets[0].elts) == 2 and isinstance(n.value, ast.Tuple)
               and any(norm(t) == "self._held" for t in n.targets[0].elts)]
     ok = False
+    # the same split written as two statements (`self._held = data[cut:]` / `data = data[:cut]`, in either order as long as the second does not read
+    # what the first wrote): put into the tuple form the checks below are written for
+    class _Pair:
+        pass
+    for blk in [getattr(x, fld) for x in walk(f.node) for fld in ("body", "orelse") if isinstance(getattr(x, fld, None), list)]:
+        for a_, b_ in zip(blk, blk[1:]):
+            if isinstance(a_, ast.Assign) and isinstance(b_, ast.Assign) and len(a_.targets) == 1 and len(b_.targets) == 1 and {norm(a_.targets[0]), norm(b_.targets[0])} >= {"self._held"} \
+                    and isinstance(a_.value, ast.Subscript) and isinstance(b_.value, ast.Subscript) and norm(a_.value.value) == norm(b_.value.value) \
+                    and norm(a_.targets[0]) not in {norm(x) for x in ast.walk(b_.value)} and not (norm(a_.targets[0]) == norm(a_.value.value)):
+                tup = ast.Assign(targets=[ast.Tuple(elts=[a_.targets[0], b_.targets[0]], ctx=ast.Store())], value=ast.Tuple(elts=[a_.value, b_.value], ctx=ast.Load()))
+                ast.copy_location(tup, b_)
+                tup._at = b_  # facts are taken where the pair stands
+                splits.append(tup)
     for n in splits:
         tg = [norm(t) for t in n.targets[0].elts]
         vals = list(n.value.elts)
@@ -532,17 +545,20 @@ def r01_11(ctx: Ctx) -> None:
                 and isinstance(held_v, ast.Subscript) and isinstance(held_v.slice, ast.Slice) and held_v.slice.upper is None and held_v.slice.lower is not None \
                 and norm(keep_v.slice.upper) == norm(held_v.slice.lower) and norm(keep_v.value) == norm(held_v.value):
             cut = keep_v.slice.upper
-        outstanding = any(pol and isinstance(cd, ast.Compare) and isinstance(cd.ops[0], ast.Lt) and "_size" in norm(cd.comparators[0]) and "_fed" in norm(cd.left) for cd, pol in q.facts_at(f, n))
+            if isinstance(cut, ast.Name):
+                cv = q.assigned_values(f, cut.id)  # the index was given a name
+                cut = cv[0] if len(cv) == 1 else cut
+        outstanding = any(pol and isinstance(cd, ast.Compare) and isinstance(cd.ops[0], ast.Lt) and "_size" in norm(cd.comparators[0]) and "_fed" in norm(cd.left) for cd, pol in q.facts_at(f, getattr(n, "_at", n)))
         keeps = cut is not None and isinstance(cut, ast.BinOp) and isinstance(cut.op, ast.Sub) and norm(cut.left).startswith("len(") and any(
             isinstance(v, ast.Call) and dotted(v.func) == "min" and any("HOLD_BACK" in norm(a_) for a_ in v.args) for v in ([cut.right] + list(q.assigned_values(f, norm(cut.right)))))
         if cut is not None and outstanding and keeps and tg[1 - hi] == norm(dec[0].args[0]):
             ok = True
-    ctx.check(ok, "R01.11", f, splits[0] if splits else f.node, "while data is outstanding the last unit of every piece is held back",
+    ctx.check(ok, "R01.11", f, getattr(splits[0], "_at", splits[0]) if splits else f.node, "while data is outstanding the last unit of every piece is held back",
               "BranchFilterDecoder.decompress does not split the piece into `data[:len - keep]` (decoded) and `data[len - keep:]` (held, keep = min(len, HOLD_BACK)) while "
               "`fed + len(data) < size`: a piece that ends inside the last unit of the stream makes the library flush those bytes unconverted - members under a BCJ filter come "
               "back with wrong bytes near the end (CrcError), depending on the block sizes", construct="hold-back split")
     cnt = [n for n in walk(f.node) if isinstance(n, ast.AugAssign) and isinstance(n.op, ast.Add) and norm(n.target) == "self._fed" and dec and norm(n.value) == f"len({norm(dec[0].args[0])})"]
-    ctx.check(bool(cnt) and all(not cfg.reaches(q.node_for(f, n), q.node_for(f, s_)) for n in cnt for s_ in splits), "R01.11", f, cnt[0] if cnt else f.node,
+    ctx.check(bool(cnt) and all(not cfg.reaches(q.node_for(f, n), q.node_for(f, getattr(s_, "_at", s_))) for n in cnt for s_ in splits), "R01.11", f, cnt[0] if cnt else f.node,
               "what goes to the decoder is counted (after the split)", "BranchFilterDecoder.decompress does not add the length of what it decodes to `_fed` (after the hold-back split): "
               "the test 'more data is outstanding' is wrong from the second piece on", construct="fed count")
 
